@@ -3,6 +3,7 @@ package main
 // A6, C6 (SSA, interprocedural): retention settings.
 
 import (
+	"go/constant"
 	"fmt"
 	"go/token"
 	"go/types"
@@ -86,24 +87,25 @@ var ruleA6 = &Rule{
 	Run: func(c *Ctx) []Obl {
 		var obls []Obl
 		found := 0
-		putFn, getFn := c.settingsFns()
-		if putFn == nil || getFn == nil {
+		api := c.settingsAPIOf()
+		if api.basePut == nil || api.baseGet == nil {
 			return []Obl{{Key: "settings read / write routines", Pos: "-", Status: Undecided, Msg: "no function of ctrl/ runs `INSERT INTO settings` / reads the settings table"}}
 		}
 		for _, fn := range moduleFuncs(c.CG()) {
-			if isTestFunc(c, fn) || !strings.HasPrefix(fnPkgRel(fn), "ctrl") {
+			// thin forwarding wrappers of the settings routines are judged at their callers
+			if isTestFunc(c, fn) || !strings.HasPrefix(fnPkgRel(fn), "ctrl") || api.inner[fn] != nil {
 				continue
 			}
 			var put, get *ssa.Call
 			for _, b := range fn.Blocks {
 				for _, ins := range b.Instrs {
 					if call, ok := ins.(*ssa.Call); ok {
-						switch call.Common().StaticCallee() {
-						case nil:
-						case putFn:
-							put = call
-						case getFn:
-							get = call
+						if sc := call.Common().StaticCallee(); sc != nil {
+							if api.putLike[sc] {
+								put = call
+							} else if api.getLike[sc] {
+								get = call
+							}
 						}
 					}
 				}
@@ -131,22 +133,14 @@ var ruleA6 = &Rule{
 				continue
 			}
 			// (type, name): the string arguments of the write routine are (type, name, value), those of the read routine (type, name)
-			pa := append([]ssa.Value{nil}, stringArgs(put)...)
-			ga := append([]ssa.Value{nil, nil}, stringArgs(get)...)
-			sameV := func(a, b ssa.Value) bool {
-				if a == b {
-					return true
-				}
-				if sameExpr(a, b, 0) {
-					return true
-				}
-				sa, ok1 := constStr(a)
-				sb, ok2 := constStr(b)
-				return ok1 && ok2 && sa == sb
-			}
-			sameKey := len(pa) == 4 && len(ga) == 4 && sameV(pa[1], ga[2]) && sameV(pa[2], ga[3])
+			pr, okP := api.rolesAt(put, 0)
+			gr, okG := api.rolesAt(get, 0)
+			sameKey := okP && okG && sameSym(pr.tp, gr.tp) && sameSym(pr.name, gr.name)
 			add("get/put use the same (type, name)", sameKey, get.Pos(), "the value compared must be the one recorded under the same key, else re-applying is never a no-op (or a change is never applied)")
-			desired := pa[len(pa)-1]
+			var desired ssa.Value
+			if len(pr.value.path) == 0 {
+				desired = pr.value.v
+			}
 			var recorded ssa.Value
 			if get.Referrers() != nil {
 				for _, r := range *get.Referrers() {
@@ -204,7 +198,7 @@ var ruleA6 = &Rule{
 			for _, b := range fn.Blocks {
 				for _, ins := range b.Instrs {
 					if call, ok := ins.(*ssa.Call); ok {
-						if sc := call.Common().StaticCallee(); sc != nil && isModuleFn(sc) && sc != putFn && sc != getFn {
+						if sc := call.Common().StaticCallee(); sc != nil && isModuleFn(sc) && !api.putLike[sc] && !api.getLike[sc] {
 							if n, _ := performsAlters(sc, 0); n > 0 {
 								sites = append(sites, site{call, "ALTERs in " + sc.Name(), sc})
 							}
@@ -318,57 +312,23 @@ var ruleC6 = &Rule{
 								pExpr = p
 							}
 						}
-						ph, ok := v.(*ssa.Phi)
-						if !ok || len(ph.Edges) != 2 {
+						sides, isMax := maxOfTwo(v)
+						if !isMax {
 							continue
 						}
-						// selected by a `<` between exactly the two merged values
-						for _, bb := range fn.Blocks {
-							if len(bb.Instrs) == 0 {
-								continue
-							}
-							iff, ok := bb.Instrs[len(bb.Instrs)-1].(*ssa.If)
-							if !ok {
-								continue
-							}
-							cmp, ok := iff.Cond.(*ssa.BinOp)
-							if !ok || (cmp.Op != token.LSS && cmp.Op != token.GTR && cmp.Op != token.LEQ && cmp.Op != token.GEQ) {
-								continue
-							}
-							a, bv := ph.Edges[0], ph.Edges[1]
-							if !((sameExpr(cmp.X, a, 0) && sameExpr(cmp.Y, bv, 0)) || (sameExpr(cmp.X, bv, 0) && sameExpr(cmp.Y, a, 0))) {
-								continue
-							}
-							// the smaller side must be the one replaced: the phi takes the maximum
-							var lo, hi ssa.Value // on the true edge lo < hi (or lo <= hi)
-							switch cmp.Op {
-							case token.LSS, token.LEQ:
-								lo, hi = cmp.X, cmp.Y
-							default:
-								lo, hi = cmp.Y, cmp.X
-							}
-							// the edge coming from the true branch must carry hi
-							for i, pred := range ph.Block().Preds {
-								if pred == bb.Succs[0] || (bb.Succs[0] == ph.Block() && pred == bb) {
-									if sameExpr(ph.Edges[i], hi, 0) {
-										okClamp = true
+						okClamp = true
+						// which of the two derives from a numeric parameter (the minimum)
+						for _, side := range sides {
+							dependsOnValue(side, func(x ssa.Value) bool {
+								if p, ok := x.(*ssa.Parameter); ok && p.Parent() == fn {
+									// the minimum is a plain number (a time.Duration or a count of seconds); the policy is a struct / slice element
+									if bt, ok := p.Type().Underlying().(*types.Basic); ok && bt.Info()&types.IsNumeric != 0 {
+										pMin = p
+										return true
 									}
 								}
-							}
-							_ = lo
-							// which of the two derives from a Duration parameter (the minimum)
-							for _, side := range []ssa.Value{a, bv} {
-								dependsOnValue(side, func(x ssa.Value) bool {
-									if p, ok := x.(*ssa.Parameter); ok {
-										// the minimum is a plain number (a time.Duration or a count of seconds); the policy is a struct / slice element
-										if bt, ok := p.Type().Underlying().(*types.Basic); ok && bt.Info()&types.IsNumeric != 0 {
-											pMin = p
-											return true
-										}
-									}
-									return false
-								}, map[ssa.Value]bool{}, 0)
-							}
+								return false
+							}, map[ssa.Value]bool{}, 0)
 						}
 					}
 				}
@@ -472,6 +432,49 @@ var ruleC6 = &Rule{
 						}
 					}
 				}
+				// both are computed from one enumeration field of a row of a constant table by methods that map each constant
+				// to a constant
+				if cm, ok1 := nm.(*ssa.Call); ok1 {
+					if ce, ok2 := ne.(*ssa.Call); ok2 && len(cm.Common().Args) == 1 && len(ce.Common().Args) == 1 &&
+						cm.Common().StaticCallee() != nil && ce.Common().StaticCallee() != nil {
+						rm, re := symOf(cm.Common().Args[0]), symOf(ce.Common().Args[0])
+						if sameSym(rm, re) && len(rm.path) > 0 {
+							if rows := c.rowSource(rm.v, 0); rows != nil {
+								kf := fieldPathName(rm.v.Type(), rm.path)
+								for _, row := range rows {
+									lbl := ""
+									var fns []string
+									for k := range row {
+										fns = append(fns, k)
+									}
+									sort.Strings(fns)
+									for _, k := range fns {
+										v := row[k]
+										if k != kf && v != "" && !strings.ContainsAny(v, " (") {
+											if _, err := strconv.ParseInt(v, 10, 64); err != nil {
+												lbl = v
+											}
+										}
+									}
+									key := fmt.Sprintf("%s %s(%s) minimum", ssaName(site.Parent()), fr.fn.Name(), lbl)
+									kv, has := row[kf]
+									mv, okM := enumEval(cm.Common().StaticCallee(), kv)
+									ev, okE := enumEval(ce.Common().StaticCallee(), kv)
+									n, err := strconv.ParseInt(mv, 10, 64)
+									if !has || !okM || !okE || err != nil {
+										obls = append(obls, Obl{Key: key, Pos: c.pos(site.Pos()), Status: Undecided, Msg: "table row whose kind does not evaluate to a constant minimum / expression"})
+										continue
+									}
+									if isDurationType(cm.Type()) {
+										n /= 1000000000
+									}
+									judge(lbl, ev, n)
+								}
+								continue
+							}
+						}
+					}
+				}
 				kmin, okMinConst := nm.(*ssa.Const)
 				sexpr, okExprConst := constStr(ne)
 				if okMinConst && okExprConst {
@@ -509,6 +512,81 @@ var ruleC6 = &Rule{
 }
 
 func init() { register(ruleA6, ruleC6) }
+
+// selectsMax: some `<`-family comparison of fn between exactly a and b sends its true edge to where carried(trueSucc) is the larger one.
+func selectsMax(fn *ssa.Function, a, b ssa.Value, carried func(from *ssa.BasicBlock, trueSucc *ssa.BasicBlock) ssa.Value) bool {
+	for _, bb := range fn.Blocks {
+		if len(bb.Instrs) == 0 {
+			continue
+		}
+		iff, ok := bb.Instrs[len(bb.Instrs)-1].(*ssa.If)
+		if !ok {
+			continue
+		}
+		cmp, ok := iff.Cond.(*ssa.BinOp)
+		if !ok || (cmp.Op != token.LSS && cmp.Op != token.GTR && cmp.Op != token.LEQ && cmp.Op != token.GEQ) {
+			continue
+		}
+		if !((sameExpr(cmp.X, a, 0) && sameExpr(cmp.Y, b, 0)) || (sameExpr(cmp.X, b, 0) && sameExpr(cmp.Y, a, 0))) {
+			continue
+		}
+		// on the true edge lo < hi (or lo <= hi): the smaller side must be the one replaced
+		hi := cmp.Y
+		if cmp.Op == token.GTR || cmp.Op == token.GEQ {
+			hi = cmp.X
+		}
+		if got := carried(bb, bb.Succs[0]); got != nil && sameExpr(got, hi, 0) {
+			return true
+		}
+	}
+	return false
+}
+
+// maxOfTwo: v is the larger of two values — a merge of the two selected by a comparison of exactly those two, in place or in a helper
+// that returns one or the other; the sides are given in the frame of v.
+func maxOfTwo(v ssa.Value) ([]ssa.Value, bool) {
+	switch x := v.(type) {
+	case *ssa.Phi:
+		if len(x.Edges) != 2 {
+			return nil, false
+		}
+		ok := selectsMax(x.Parent(), x.Edges[0], x.Edges[1], func(from, succ *ssa.BasicBlock) ssa.Value {
+			for i, pred := range x.Block().Preds {
+				if pred == succ || (succ == x.Block() && pred == from) {
+					return x.Edges[i]
+				}
+			}
+			return nil
+		})
+		return []ssa.Value{x.Edges[0], x.Edges[1]}, ok
+	case *ssa.Call:
+		sc := x.Common().StaticCallee()
+		if sc == nil || !isModuleFn(sc) || len(sc.Blocks) == 0 {
+			return nil, false
+		}
+		rets := returnsOf(sc)
+		if len(rets) == 1 && len(rets[0].Results) == 1 {
+			// the helper merges before returning
+			if _, ok := maxOfTwo(rets[0].Results[0]); ok {
+				return x.Common().Args, true
+			}
+			return nil, false
+		}
+		if len(rets) != 2 || len(rets[0].Results) != 1 || len(rets[1].Results) != 1 {
+			return nil, false
+		}
+		ok := selectsMax(sc, rets[0].Results[0], rets[1].Results[0], func(from, succ *ssa.BasicBlock) ssa.Value {
+			for _, r := range rets {
+				if r.Block() == succ || (len(succ.Preds) == 1 && succ.Dominates(r.Block())) {
+					return r.Results[0]
+				}
+			}
+			return nil
+		})
+		return x.Common().Args, ok
+	}
+	return nil, false
+}
 
 // sameExpr: two SSA values are the same pure expression over the same leaves (Go's SSA form does no common-subexpression elimination).
 func sameExpr(a, b ssa.Value, d int) bool {
@@ -602,4 +680,66 @@ func fieldOfRow(v ssa.Value) (ssa.Value, string, bool) {
 		}
 	}
 	return nil, "", false
+}
+
+// enumEval: the constant a function of one integer-like parameter returns for the argument k (Go syntax), by following its
+// `param == const` tests; fails on anything else.
+func enumEval(fn *ssa.Function, k string) (string, bool) {
+	if fn == nil || len(fn.Blocks) == 0 || len(fn.Params) != 1 {
+		return "", false
+	}
+	p := fn.Params[0]
+	b := fn.Blocks[0]
+	for steps := 0; steps < 64; steps++ {
+		if len(b.Instrs) == 0 {
+			return "", false
+		}
+		switch t := b.Instrs[len(b.Instrs)-1].(type) {
+		case *ssa.Return:
+			if len(t.Results) != 1 {
+				return "", false
+			}
+			v := t.Results[0]
+			if ph, ok := v.(*ssa.Phi); ok {
+				_ = ph
+				return "", false
+			}
+			kc, ok := v.(*ssa.Const)
+			if !ok || kc.Value == nil {
+				return "", false
+			}
+			if kc.Value.Kind() == constant.String {
+				return constant.StringVal(kc.Value), true
+			}
+			return kc.Value.ExactString(), true
+		case *ssa.Jump:
+			b = b.Succs[0]
+		case *ssa.If:
+			cmp, ok := t.Cond.(*ssa.BinOp)
+			if !ok || (cmp.Op != token.EQL && cmp.Op != token.NEQ) {
+				return "", false
+			}
+			var kc *ssa.Const
+			if cmp.X == ssa.Value(p) {
+				kc, _ = cmp.Y.(*ssa.Const)
+			} else if cmp.Y == ssa.Value(p) {
+				kc, _ = cmp.X.(*ssa.Const)
+			}
+			if kc == nil || kc.Value == nil {
+				return "", false
+			}
+			eq := kc.Value.ExactString() == k
+			if cmp.Op == token.NEQ {
+				eq = !eq
+			}
+			if eq {
+				b = b.Succs[0]
+			} else {
+				b = b.Succs[1]
+			}
+		default:
+			return "", false
+		}
+	}
+	return "", false
 }
